@@ -410,3 +410,24 @@ CHECKS["C18"] = {
                   "where any report is a violation.",
     "level_note": "Held on the observed schedules only. Trusted: ThreadSanitizer, harness baseline.",
 }
+
+CHECKS["C19"] = {
+    "title": "Wire compatibility with the released protocol and a reference implementation",
+    "level": "exploration",
+    "technique": "runtime monitoring against recorded golden vectors (proofs, masks, generator encodings recorded from the pinned tree with pristine merlin) and differential cross-implementation runs with the independent prover/verifier, byte for byte over Ristretto",
+    "design_ref": "DESIGN.md section 4 C19",
+    "legs": [{"name": "vectors", "shards": 16}, {"name": "cross", "shards": 16}],
+    "rule": "vector cases: each of the 54 recorded proofs (every bit length x every degree seeded, plus 12 aggregated configurations up to 64x32; quick skips bits*aggregation > 512) verified in three modes, masks compared, "
+            "reference verifier and recovery run on it, seeded ones re-proved and A/L/R compared; each of 10 recorded generator tables and the Pedersen set regenerated; cross cases: fresh random instances over the lattice, "
+            "reference prover -> library verify + recover, library prover -> reference verifier, seeded A/L/R equality between the two provers; distinct = distinct vectors / instances",
+    "require": {"quick": {"recorded_proofs_checked": 48, "recorded_proof_verifications": 120, "recorded_masks_compared": 80, "seeded_reproofs_compared": 40, "generator_sets_compared": 8,
+                          "reference_proofs_into_library": 80, "library_proofs_into_reference": 80, "seeded_prover_pairs_compared": 10},
+                "thorough": {"recorded_proofs_checked": 54, "recorded_proof_verifications": 140, "recorded_masks_compared": 90, "seeded_reproofs_compared": 42, "generator_sets_compared": 11,
+                             "reference_proofs_into_library": 1500, "library_proofs_into_reference": 1500, "seeded_prover_pairs_compared": 200}},
+    "assumptions": COMMON_ASSUMPTIONS + ["the pinned commit IS release 0.4.0 (no registry copy of the crate exists offline to confirm it); the vectors were recorded from it before any fix: commit, with the unmodified merlin crate",
+                                         "full-proof byte reproduction is deliberately not an oracle: A1, B, r1, s1, d1 depend on the order in which the prover consumes its RNG, which a compatible refactor may change"],
+    "level_text": "Checks the current tree against what the pinned release produced: recorded proofs still verify in every mode and yield the recorded masks, recorded generator encodings are regenerated, seeded statements re-prove to the "
+                  "recorded A / L_j / R_j; and against an implementation written from the paper and the documentation: its proofs are accepted and their masks recovered, the library's proofs are accepted by it, and for seeded "
+                  "statements both provers emit byte-identical A / L_j / R_j (same nonce derivation, generators, transcript layout, folding).",
+    "level_note": "Held on the recorded vectors and the executed cross runs. Trusted: refbp, the recorded vectors.",
+}
